@@ -29,7 +29,7 @@ PROPS = {
     "C06": {
         "level": "exploration", "exhaustive": True,
         "lanes": LANES_STD,
-        "rule": "bounded-exhaustive: every shape {(0,0)} u [1..N]^2 x capacity class {exact, reserve_exact, spare} x axis x element type {Kv(Copy), Tok(owning, ledger), Zst} is one case; inside it every index 0..=dim+1 and usize::MAX, every supplied length 0..=dim+1 (0..=N+1 on empty arrays), insert_* and push_* forms, four honest iterator kinds. distinct = (axis, shape, index, length, capacity class, element type, form, accepted|rejected); non-trivial = an accepted call that inserted >=1 element, or a rejection on a non-empty array, and the post-state passed shape+model+ledger checks.",
+        "rule": "bounded-exhaustive: every shape {(0,0)} u [1..N]^2 x capacity class {exact, reserve_exact of the needed amount, spare, partial = spare capacity smaller than the inserted line} x axis x element type {Kv(Copy), Tok(owning, ledger), Zst} is one case; inside it every index 0..=dim+1 and usize::MAX, every supplied length 0..=dim+1 (0..=N+1 on empty arrays), insert_* and push_* forms, four honest iterator kinds. distinct = (axis, shape, index, length, capacity class, element type, form, accepted|rejected); non-trivial = an accepted call that inserted >=1 element, or a rejection on a non-empty array, and the post-state passed shape+model+ledger checks.",
         "must_observe": ["accepted", "rejected"],
         "text": "Bounded-exhaustive runtime exploration: every insert_row/insert_col/push_* call over all shapes up to NxN, all indices and lengths in and out of range, three element types and three capacity classes is executed against the real crate and compared cell-for-cell (by element identity) with a rows-of-cells model; the same executions run under debug assertions/ub_checks, release, AddressSanitizer, Miri and (thorough) memcheck.",
         "design_ref": "DESIGN.md 5 (C06)", "technique": "runtime monitoring: reference-model oracle + drop ledger over exhaustive small-scope executions, under ASan/Miri/memcheck/ub_checks",
@@ -176,7 +176,7 @@ PROPS.update({
     "C20": {
         "level": "exploration", "exhaustive": True,
         "lanes": LANES_STD,
-        "rule": "constructors: every dimension pair over {0..N} u {usize::MAX, usize::MAX/2+1, 2^32, 2^32+1, 2^63} x buffer lengths {0, 1, prod-1, prod, prod+1, prod+7, the wrapped product} for from_vec, from_box (Kv, Tok, Zst), TooDeeView::new, TooDeeViewMut::new, and new/init on the same pairs (accepted products capped at 4096 cells): accepted results are compared with the model (dims, row-major cells: default / clone of the given value / the given buffer by identity; views by address), must-panic for overflow, misfit and exactly-one-zero dimension. From<view>/From<view_mut> for every window of every parent up to MxM (equal cells, fresh owners, parent untouched). Conversions Vec::from, Box::from, AsRef/AsMut, into_iter consumed (front,back) then dropped: cells row-major by identity, ledger exactly-once. clone(): equal, separate buffer, separate owners, mutating the clone leaves the original intact. Eq/Hash: ALL pairs of arrays with cells over {0,1} of up to K cells in every factorisation shape: a==b iff same dims and cells, a==b implies equal hashes. distinct = constructor (kind, dim classes, dims, buffer relation, element type, accepted|rejected), conversion, window and array-pair cases that passed.",
+        "rule": "constructors: every dimension pair over {0..N} u {usize::MAX, usize::MAX/2+1, 2^32, 2^32+1, 2^63} x buffer lengths {0, 1, prod-1, prod, prod+1, prod+7, the wrapped product} for from_vec, from_box (Kv, Tok, Zst), TooDeeView::new, TooDeeViewMut::new, and new/init on the same pairs (accepted products capped at 4096 cells): accepted results are compared with the model (dims, row-major cells: default / clone of the given value / the given buffer by identity; views by address), must-panic for overflow, misfit and exactly-one-zero dimension. From<view>/From<view_mut> for every window of every parent up to MxM (equal cells, fresh owners, parent untouched). Conversions Vec::from, Box::from, AsRef/AsMut, into_iter consumed (front,back) then dropped: cells row-major by identity, ledger exactly-once. clone(): equal, separate buffer, separate owners, mutating the clone leaves the original intact. Eq/Hash: ALL pairs of arrays with cells over {0,1} of up to K cells in every factorisation shape: a==b iff same dims and cells, a==b implies equal hashes; arrays with a NaN cell are unequal even to themselves. distinct = constructor (kind, dim classes, dims, buffer relation, element type, accepted|rejected), conversion, window and array-pair cases that passed.",
         "must_observe": ["accepted", "rejected", "eq_pairs"],
         "text": "Bounded-exhaustive runtime exploration of every constructor and conversion over small and overflow-provoking dimension pairs and buffer lengths, Copy / owning / zero-sized elements, plus an all-pairs Eq/Hash sweep; judged by the model, address identity, the ledger and the must-panic rule.",
         "design_ref": "DESIGN.md 5 (C20)", "technique": "runtime monitoring: reference model + must-panic rule + drop ledger over exhaustive dimension/buffer pairs, sanitizer lanes",
